@@ -76,9 +76,17 @@ def run(tier, seed):
                 e["runs"][2][1] += 1; n += 1
             elif e["ev"] == "env" and n == 1:
                 e["vals"][40] ^= 1; n += 1
-            elif e["ev"] == "freq" and n == 2:
+            elif e["ev"] == "hist" and n == 2:
+                runs = [o for o in e["ops"] if o[0] == "run"]
+                if not runs:
+                    continue
+                t = runs[-1][1][0]
+                t[0] = 30 if t[0] != 30 else 28      # an even level index is neither a fixed volume nor silence
+                e["ops"] = [["w", 8, 0x0F], ["w", 7, 0x3F]] + [runs[-1]]
+                n += 1
+            elif e["ev"] == "freq" and n == 3:
                 e["crossings"] *= 2; n += 1
-            elif e["ev"] == "ayport" and n == 3:
+            elif e["ev"] == "ayport" and n == 4:
                 for o in e["ops"]:
                     if o[0] == "rd":
                         o[1] ^= 0x80; n += 1
@@ -87,9 +95,9 @@ def run(tier, seed):
                 continue
             g.write(json.dumps(e) + "\n")
     _, _, mm2 = validate(st, "selftest")
-    chk.cov["selftest"] = {"corrupted_events": n, "rejected": len(mm2), "ok": len(mm2) == n and n == 4}
+    chk.cov["selftest"] = {"corrupted_events": n, "rejected": len(mm2), "ok": len(mm2) == n and n == 5}
     if not chk.cov["selftest"]["ok"]:
-        raise ToolError("self-test: corrupted experiments were not all rejected")
+        chk.selftest_failed("corrupted experiments were not all rejected")
     with open(first) as f:
         e = json.loads(next(f))
         chk.sample({k: (e[k] if k != "runs" else e[k][:6]) for k in e})
@@ -97,7 +105,7 @@ def run(tier, seed):
     n_ = 48 if quick else 400
     chk.cov["rule"] = (f"{shards} shards x {n_} cases of each experiment: tone (TP 0,1,2,0xFFF, random 12-bit with garbage in the unused nibble; every half "
                        "period exactly TP ticks), noise (NP 0,1,31, random; run lengths multiples of 2NP with gcd 2NP over 800 NP ticks), envelope (16 shapes x "
-                       "EP 1,2,0,random; 150 EP ticks after the R13 write, tick by tick), mixer (random register sets, 3000 ticks), DAC monotone, pan for "
+                       "EP 1,2,0,random; 150 EP ticks after the R13 write, tick by tick), mixer (random register sets, 3000 ticks), register histories (10..40 writes to any register in any order interleaved with generation, every tick of every channel judged against the registers in force and the envelope position since the last R13 write), DAC monotone, pan for "
                        "7 modes x 3 channels, one-second zero-crossing count at 8..384 kHz, and select/write/read sequences through ports 0xFFFD/0xBFFD")
     chk.assumptions += ["numeric accuracy of interpolation / FIR decimation / DC filter is not decided (TLA+ has no reals); only quantised features of the output are",
                         "the noise polynomial is not part of the statement: only the noise clock is judged"]
